@@ -155,6 +155,19 @@ func OpenWALStorage(cfg WALStorageConfig) (*WALStorage, error) {
 	}
 
 	if isPointerAhead(replayPtr, ws.pointer) {
+		// Replay only yields the position of the newest record (plus what a replayed snapshot
+		// says). The truncation point and the first retained segment recorded in the manifest
+		// must be carried over: WAL segment cleanup (flush, watchdog, recovery) is guarded by
+		// them. A pointer that never had them gets the segment of the oldest replayed entry.
+		if ws.pointer.SegmentIndex > 0 && ws.pointer.TruncatedIndex >= replayPtr.TruncatedIndex {
+			replayPtr.TruncatedIndex = ws.pointer.TruncatedIndex
+			replayPtr.TruncatedTerm = ws.pointer.TruncatedTerm
+			replayPtr.TruncatedOffset = ws.pointer.TruncatedOffset
+			replayPtr.SegmentIndex = ws.pointer.SegmentIndex
+		}
+		if replayPtr.SegmentIndex == 0 && len(ws.entrySpans) > 0 {
+			replayPtr.SegmentIndex = uint64(ws.entrySpans[0].segmentID)
+		}
 		if err := ws.updatePointer(replayPtr); err != nil {
 			return nil, err
 		}
